@@ -42,56 +42,142 @@ theorem Conn.app_app (c : Conn) (s t : Bytes) : (c.app s).app t = c.app (s ++ t)
 -- ---------------------------------------------------------------------------------------------
 -- signalling does not look at the spool
 
+theorem Conn.note_nil (c : Conn) : c.note [] = c := by cases c; simp [Conn.note]
+
+theorem ps_csm_ok {c : Conn} {m : Msg} {s : Settings} (h : m.code = codeCSM)
+    (hc : csmOpts (c.csm.getD {}) m.opts = (s, none)) :
+    processSignaling c m = ({ c with csm := some s }, []) := by
+  unfold processSignaling
+  rw [if_pos h, hc]
+
+theorem ps_csm_bad {c : Conn} {m : Msg} {s : Settings} {n : Nat} (h : m.code = codeCSM)
+    (hc : csmOpts (c.csm.getD {}) m.opts = (s, some n)) :
+    processSignaling c m = (c.note (abortOuts txtOptNotSupported (some n)),
+      abortOuts txtOptNotSupported (some n)) := by
+  unfold processSignaling
+  rw [if_pos h, hc]
+
+/-- Ping, Pong, Release or Abort -/
+abbrev Msg.isOther (m : Msg) : Prop :=
+  m.code = codePing ∨ m.code = codePong ∨ m.code = codeRelease ∨ m.code = codeAbort
+
+theorem Msg.isOther_ne_csm {m : Msg} (h : m.isOther) : m.code ≠ codeCSM := by
+  rcases h with h | h | h | h <;> rw [h] <;> decide
+
+theorem ps_crit {c : Conn} {m : Msg} (h : m.isOther) (hcrit : hasCritical m.opts = true) :
+    processSignaling c m = (c.note (abortOuts txtUnknownCritical none),
+      abortOuts txtUnknownCritical none) := by
+  have h1 := Msg.isOther_ne_csm h
+  unfold processSignaling
+  rw [if_neg h1, if_pos h, if_pos hcrit]
+
+theorem ps_ping {c : Conn} {m : Msg} (h : m.code = codePing) (hcrit : hasCritical m.opts = false) :
+    processSignaling c m =
+      (c.note (sendMessage { code := codePong, token := m.token, opts := [], payload := [] }),
+       sendMessage { code := codePong, token := m.token, opts := [], payload := [] }) := by
+  have ho : m.isOther := Or.inl h
+  unfold processSignaling
+  rw [if_neg (Msg.isOther_ne_csm ho), if_pos ho, if_neg (by simp [hcrit]), if_pos h]
+
+theorem ps_pong {c : Conn} {m : Msg} (h : m.code = codePong) (hcrit : hasCritical m.opts = false) :
+    processSignaling c m = (c, []) := by
+  have ho : m.isOther := Or.inr (Or.inl h)
+  unfold processSignaling
+  rw [if_neg (Msg.isOther_ne_csm ho), if_pos ho, if_neg (by simp [hcrit]),
+    if_neg (by rw [h]; decide), if_pos h]
+
+theorem ps_release {c : Conn} {m : Msg} (h : m.code = codeRelease)
+    (hcrit : hasCritical m.opts = false) :
+    processSignaling c m = (c.note [.failPending .released, .close],
+      [.failPending .released, .close]) := by
+  have ho : m.isOther := Or.inr (Or.inr (Or.inl h))
+  unfold processSignaling
+  rw [if_neg (Msg.isOther_ne_csm ho), if_pos ho, if_neg (by simp [hcrit]),
+    if_neg (by rw [h]; decide), if_neg (by rw [h]; decide), if_pos h]
+
+theorem ps_abort {c : Conn} {m : Msg} (h : m.code = codeAbort)
+    (hcrit : hasCritical m.opts = false) :
+    processSignaling c m = (c.note [.failPending .aborted, .close],
+      [.failPending .aborted, .close]) := by
+  have ho : m.isOther := Or.inr (Or.inr (Or.inr h))
+  unfold processSignaling
+  rw [if_neg (Msg.isOther_ne_csm ho), if_pos ho, if_neg (by simp [hcrit]),
+    if_neg (by rw [h]; decide), if_neg (by rw [h]; decide), if_neg (by rw [h]; decide)]
+
+theorem ps_unknown {c : Conn} {m : Msg} (h1 : m.code ≠ codeCSM) (h2 : ¬ m.isOther) :
+    processSignaling c m = (c.note (abortOuts txtUnknownSignalling none),
+      abortOuts txtUnknownSignalling none) := by
+  unfold processSignaling
+  rw [if_neg h1, if_neg h2]
+
+/-- what signalling processing can output, and when -/
+inductive SigOuts (c : Conn) (m : Msg) : List Out → Prop
+  | csmBad (s : Settings) (n : Nat) : m.code = codeCSM →
+      csmOpts (c.csm.getD {}) m.opts = (s, some n) →
+      SigOuts c m (abortOuts txtOptNotSupported (some n))
+  | crit : m.isOther → hasCritical m.opts = true → SigOuts c m (abortOuts txtUnknownCritical none)
+  | unknown : m.code ≠ codeCSM → ¬ m.isOther → SigOuts c m (abortOuts txtUnknownSignalling none)
+  | pong : m.code = codePing → hasCritical m.opts = false →
+      SigOuts c m (sendMessage { code := codePong, token := m.token, opts := [], payload := [] })
+  | none : m.code = codePong → hasCritical m.opts = false → SigOuts c m []
+  | release : m.code = codeRelease → hasCritical m.opts = false →
+      SigOuts c m [.failPending .released, .close]
+  | abort : m.code = codeAbort → hasCritical m.opts = false →
+      SigOuts c m [.failPending .aborted, .close]
+
+/-- the shape of what signalling processing returns: the CSM was accepted (settings updated,
+nothing output), or the connection is as before except for the `closed` flag that follows the
+outputs -/
+theorem processSignaling_cases (c : Conn) (m : Msg) :
+    (∃ s, m.code = codeCSM ∧ csmOpts (c.csm.getD {}) m.opts = (s, none) ∧
+      processSignaling c m = ({ c with csm := some s }, [])) ∨
+    (∃ outs, processSignaling c m = (c.note outs, outs) ∧ SigOuts c m outs) := by
+  by_cases h1 : m.code = codeCSM
+  · rcases hc : csmOpts (c.csm.getD {}) m.opts with ⟨s, _ | n⟩
+    · left; exact ⟨s, h1, rfl, ps_csm_ok h1 hc⟩
+    · right; exact ⟨_, ps_csm_bad h1 hc, .csmBad s n h1 hc⟩
+  · right
+    by_cases h2 : m.isOther
+    · cases hcrit : hasCritical m.opts with
+      | true => exact ⟨_, ps_crit h2 hcrit, .crit h2 hcrit⟩
+      | false =>
+        rcases h2 with h | h | h | h
+        · exact ⟨_, ps_ping h hcrit, .pong h hcrit⟩
+        · exact ⟨[], by rw [ps_pong h hcrit, Conn.note_nil], .none h hcrit⟩
+        · exact ⟨_, ps_release h hcrit, .release h hcrit⟩
+        · exact ⟨_, ps_abort h hcrit, .abort h hcrit⟩
+    · exact ⟨_, ps_unknown h1 h2, .unknown h1 h2⟩
+
 theorem processSignaling_app (c : Conn) (m : Msg) (t : Bytes) :
     processSignaling (c.app t) m = ((processSignaling c m).1.app t, (processSignaling c m).2) := by
   unfold processSignaling
+  simp only [Conn.app_csm]
   split
-  · rfl
+  · split <;> rfl
   · split
-    · rfl
     · split
       · rfl
       · split
         · rfl
-        · split <;> rfl
+        · split
+          · rfl
+          · split <;> rfl
+    · rfl
 
 theorem processSignaling_spool (c : Conn) (m : Msg) : (processSignaling c m).1.spool = c.spool := by
-  unfold processSignaling
-  split
-  · rfl
-  · split
-    · rfl
-    · split
-      · rfl
-      · split
-        · rfl
-        · split <;> rfl
+  rcases processSignaling_cases c m with ⟨s, _, _, h⟩ | ⟨outs, h, _⟩ <;> rw [h]
+  rfl
 
 theorem processSignaling_maxSize (c : Conn) (m : Msg) :
     (processSignaling c m).1.maxSize = c.maxSize := by
-  unfold processSignaling
-  split
-  · rfl
-  · split
-    · rfl
-    · split
-      · rfl
-      · split
-        · rfl
-        · split <;> rfl
+  rcases processSignaling_cases c m with ⟨s, _, _, h⟩ | ⟨outs, h, _⟩ <;> rw [h]
+  rfl
 
 theorem processSignaling_closed (c : Conn) (m : Msg) :
     (processSignaling c m).1.closed = (c.closed || (processSignaling c m).2.any Out.isClose) := by
-  unfold processSignaling
-  split
+  rcases processSignaling_cases c m with ⟨s, _, _, h⟩ | ⟨outs, h, _⟩ <;> rw [h]
+  · simp
   · rfl
-  · split
-    · rfl
-    · split
-      · rfl
-      · split
-        · rfl
-        · split <;> rfl
 
 -- ---------------------------------------------------------------------------------------------
 -- one loop iteration
@@ -120,7 +206,12 @@ theorem step_cases (c : Conn) :
     (∃ to tkl len m, extractSize c.spool = some (to, tkl, len) ∧ to + tkl + len ≤ c.maxSize ∧
         to + tkl + len ≤ c.spool.length ∧
         decodeMessage (c.spool.take (to + tkl + len)) = some m ∧
-        ((224 ≤ m.code ∧ step c =
+        ((224 ≤ m.code ∧ (processSignaling (c.consume (to + tkl + len)) m).1.closed = true ∧
+            step c =
+            .stop (processSignaling (c.consume (to + tkl + len)) m).1
+                  (processSignaling (c.consume (to + tkl + len)) m).2) ∨
+         (224 ≤ m.code ∧ (processSignaling (c.consume (to + tkl + len)) m).1.closed = false ∧
+            step c =
             .next (processSignaling (c.consume (to + tkl + len)) m).1
                   (processSignaling (c.consume (to + tkl + len)) m).2) ∨
          (m.code < 224 ∧ c.csm = none ∧ step c =
@@ -148,11 +239,13 @@ theorem step_cases (c : Conn) :
           right; right; right
           refine ⟨to, tkl, len, m, rfl, by omega, by omega, hd, ?_⟩
           by_cases h3 : m.code ≥ 224
-          · left; exact ⟨h3, by simp [h1, h2, hd, h3]⟩
+          · cases hcl : (processSignaling (c.consume (to + tkl + len)) m).1.closed with
+            | true => left; exact ⟨h3, rfl, by simp [h1, h2, hd, h3, hcl]⟩
+            | false => right; left; exact ⟨h3, rfl, by simp [h1, h2, hd, h3, hcl]⟩
           · by_cases h4 : c.csm = none
-            · right; left
+            · right; right; left
               exact ⟨by omega, h4, by simp [h1, h2, hd, h3, h4]⟩
-            · right; right
+            · right; right; right
               refine ⟨by omega, h4, ?_⟩
               have : c.csm.isNone = false := by
                 cases hc : c.csm with
@@ -184,13 +277,20 @@ theorem step_app (c : Conn) (t : Bytes) (h : step c ≠ .wait) :
     have a : ¬ to + tkl + len > c.maxSize := by omega
     have b : ¬ to + tkl + len > (c.spool ++ t).length := by simp; omega
     have hc1 := Conn.consume_app c t h2
-    rcases hcase with ⟨h3, hs⟩ | ⟨h3, h4, hs⟩ | ⟨h3, h4, hs⟩
+    rcases hcase with ⟨h3, hcl, hs⟩ | ⟨h3, hcl, hs⟩ | ⟨h3, h4, hs⟩ | ⟨h3, h4, hs⟩
     · rw [hs]
       unfold step
       simp only [Conn.app_spool, hx', Conn.app_maxSize, a, b, ↓reduceIte,
         List.take_append_of_le_length h2, hd]
       have : m.code ≥ 224 := h3
-      simp only [this, ↓reduceIte, hc1, processSignaling_app, Step.app]
+      simp only [this, ↓reduceIte, hc1, processSignaling_app, Conn.app_closed, hcl, Step.app]
+    · rw [hs]
+      unfold step
+      simp only [Conn.app_spool, hx', Conn.app_maxSize, a, b, ↓reduceIte,
+        List.take_append_of_le_length h2, hd]
+      have : m.code ≥ 224 := h3
+      simp only [this, ↓reduceIte, hc1, processSignaling_app, Conn.app_closed, hcl,
+        Bool.false_eq_true, Step.app]
     · rw [hs]
       unfold step
       simp only [Conn.app_spool, hx', Conn.app_maxSize, a, b, ↓reduceIte,
@@ -220,7 +320,8 @@ theorem step_next_lt {c c' : Conn} {o : List Out} (h : step c = .next c' o) :
   · rw [hs] at h; cases h
   · rw [hs] at h; cases h
   · have hto := (extractSize_bounds hx).1
-    rcases hcase with ⟨h3, hs⟩ | ⟨h3, h4, hs⟩ | ⟨h3, h4, hs⟩
+    rcases hcase with ⟨h3, _, hs⟩ | ⟨h3, _, hs⟩ | ⟨h3, h4, hs⟩ | ⟨h3, h4, hs⟩
+    · rw [hs] at h; cases h
     · rw [hs] at h
       simp only [Step.next.injEq] at h
       rw [← h.1, processSignaling_spool, processSignaling_maxSize]
@@ -233,10 +334,12 @@ theorem step_next_lt {c c' : Conn} {o : List Out} (h : step c = .next c' o) :
       simp only [Conn.consume_spool, Conn.consume_maxSize, List.length_drop]
       exact ⟨by omega, trivial⟩
 
-/-- `closed` records exactly whether a close has been output; a stopping iteration closes -/
+/-- `closed` records exactly whether a close has been output; a returning iteration leaves the
+transport closing -/
 theorem step_closed (c : Conn) :
     (∀ c' o, step c = .next c' o → c'.closed = (c.closed || o.any Out.isClose)) ∧
-    (∀ c' o, step c = .stop c' o → c'.closed = true ∧ o.any Out.isClose = true) := by
+    (∀ c' o, step c = .stop c' o → c'.closed = true ∧
+      c'.closed = (c.closed || o.any Out.isClose)) := by
   rcases step_cases c with ⟨hw, _⟩ | ⟨to, tkl, len, hx, h1, hs⟩ | ⟨to, tkl, len, hx, h1, h2, hd, hs⟩ |
     ⟨to, tkl, len, m, hx, h1, h2, hd, hcase⟩
   · rw [hw]; exact ⟨(fun _ _ h => by cases h), (fun _ _ h => by cases h)⟩
@@ -250,7 +353,12 @@ theorem step_closed (c : Conn) :
     simp only [Step.stop.injEq] at h
     rw [← h.1, ← h.2]
     simp [abortOuts_any_close]
-  · rcases hcase with ⟨h3, hs⟩ | ⟨h3, h4, hs⟩ | ⟨h3, h4, hs⟩
+  · rcases hcase with ⟨h3, hcl, hs⟩ | ⟨h3, hcl, hs⟩ | ⟨h3, h4, hs⟩ | ⟨h3, h4, hs⟩
+    · rw [hs]
+      refine ⟨(fun _ _ h => by cases h), fun c' o h => ?_⟩
+      simp only [Step.stop.injEq] at h
+      rw [← h.1, ← h.2]
+      exact ⟨hcl, by rw [processSignaling_closed]; rfl⟩
     · rw [hs]
       refine ⟨fun c' o h => ?_, (fun _ _ h => by cases h)⟩
       simp only [Step.next.injEq] at h
@@ -269,13 +377,38 @@ theorem step_closed (c : Conn) :
 theorem step_stop_maxSize {c c' : Conn} {o : List Out} (h : step c = .stop c' o) :
     c'.maxSize = c.maxSize := by
   rcases step_cases c with ⟨hw, _⟩ | ⟨_, _, _, _, _, hs2⟩ | ⟨_, _, _, _, _, _, _, hs2⟩ |
-    ⟨_, _, _, _, _, _, _, _, ⟨_, hs2⟩ | ⟨_, _, hs2⟩ | ⟨_, _, hs2⟩⟩
+    ⟨_, _, _, _, _, _, _, _, ⟨_, _, hs2⟩ | ⟨_, _, hs2⟩ | ⟨_, _, hs2⟩ | ⟨_, _, hs2⟩⟩
   · rw [hw] at h; cases h
   · rw [hs2] at h; simp only [Step.stop.injEq] at h; rw [← h.1]; rfl
   · rw [hs2] at h; simp only [Step.stop.injEq] at h; rw [← h.1]; rfl
+  · rw [hs2] at h; simp only [Step.stop.injEq] at h; rw [← h.1, processSignaling_maxSize]; rfl
   · rw [hs2] at h; cases h
   · rw [hs2] at h; simp only [Step.stop.injEq] at h; rw [← h.1]; rfl
   · rw [hs2] at h; cases h
+
+/-- **The loop goes on only while the transport is open.**  A continuing iteration outputs no
+close and leaves `closed` as it was. -/
+theorem step_next_open {c c' : Conn} {o : List Out} (h : step c = .next c' o) :
+    c'.closed = c.closed ∧ o.any Out.isClose = false := by
+  rcases step_cases c with ⟨hw, _⟩ | ⟨_, _, _, _, _, hs⟩ | ⟨_, _, _, _, _, _, _, hs⟩ |
+    ⟨to, tkl, len, m, _, _, _, _, ⟨_, _, hs⟩ | ⟨_, hcl, hs⟩ | ⟨_, _, hs⟩ | ⟨_, _, hs⟩⟩
+  · rw [hw] at h; cases h
+  · rw [hs] at h; cases h
+  · rw [hs] at h; cases h
+  · rw [hs] at h; cases h
+  · rw [hs] at h
+    simp only [Step.next.injEq] at h
+    rw [← h.1, ← h.2]
+    have := processSignaling_closed (c.consume (to + tkl + len)) m
+    rw [hcl] at this
+    simp only [Conn.consume_closed] at this
+    have h2 := Bool.or_eq_false_iff.mp this.symm
+    exact ⟨by rw [hcl, h2.1], h2.2⟩
+  · rw [hs] at h; cases h
+  · rw [hs] at h
+    simp only [Step.next.injEq] at h
+    rw [← h.1, ← h.2]
+    exact ⟨rfl, dispatchIncoming_no_close m⟩
 
 -- ---------------------------------------------------------------------------------------------
 -- the drain loop
@@ -348,13 +481,16 @@ theorem drain_app (t : Bytes) : ∀ (n : Nat) (c : Conn), c.spool.length < n →
       rw [hd', ih c' (by omega), hd]
       cases hb : (drain c').2.2 <;> simp [hb]
 
-/-- `closed` after the loop = closed before or a close among the outputs; an aborting run
-closes; a run that did not abort ends where the next iteration would wait -/
+/-- `closed` after the loop = closed before or a close among the outputs; a run that returned
+from inside the loop leaves the transport closing; a run that did not ends where the next
+iteration would wait, has output no close and has left `closed` as it was -/
 theorem drain_facts : ∀ (n : Nat) (c : Conn), c.spool.length < n →
     (drain c).1.closed = (c.closed || (drain c).2.1.any Out.isClose) ∧
     ((drain c).2.2 = true → (drain c).1.closed = true) ∧
     ((drain c).2.2 = false → step (drain c).1 = .wait) ∧
-    (drain c).1.maxSize = c.maxSize := by
+    (drain c).1.maxSize = c.maxSize ∧
+    ((drain c).2.2 = false → (drain c).1.closed = c.closed ∧
+      (drain c).2.1.any Out.isClose = false) := by
   intro n
   induction n with
   | zero => intro c h; omega
@@ -367,37 +503,24 @@ theorem drain_facts : ∀ (n : Nat) (c : Conn), c.spool.length < n →
     | stop c' o =>
       have hd : drain c = (c', o, true) := by rw [drain_eq, hs]
       obtain ⟨h1, h2⟩ := (step_closed c).2 c' o hs
-      simp [hd, h1, h2, step_stop_maxSize hs]
+      rw [hd]
+      exact ⟨h2, fun _ => h1, fun h => Bool.noConfusion h, step_stop_maxSize hs,
+        fun h => Bool.noConfusion h⟩
     | next c' o =>
       obtain ⟨hlt', hmax⟩ := step_next_lt hs
       have hd : drain c = ((drain c').1, o ++ (drain c').2.1, (drain c').2.2) := by
         rw [drain_eq, hs]
-      obtain ⟨i1, i2, i3, i4⟩ := ih c' (by omega)
+      obtain ⟨i1, i2, i3, i4, i5⟩ := ih c' (by omega)
       have hc := (step_closed c).1 c' o hs
+      obtain ⟨ho1, ho2⟩ := step_next_open hs
       rw [hd]
-      refine ⟨?_, i2, i3, by simp [i4, hmax]⟩
-      simp only [i1, hc, List.any_append, Bool.or_assoc]
+      refine ⟨?_, i2, i3, by simp [i4, hmax], fun h => ?_⟩
+      · simp only [i1, hc, List.any_append, Bool.or_assoc]
+      · obtain ⟨j1, j2⟩ := i5 h
+        exact ⟨by rw [j1, ho1], by simp [List.any_append, ho2, j2]⟩
 
 -- ---------------------------------------------------------------------------------------------
--- outputs up to the first close
-
-theorem uptoClose_append (a b : List Out) :
-    uptoClose (a ++ b) = if a.any Out.isClose then uptoClose a else a ++ uptoClose b := by
-  induction a with
-  | nil => simp
-  | cons x xs ih =>
-    simp only [List.cons_append, uptoClose, List.any_cons]
-    by_cases hx : x.isClose = true
-    · simp [hx]
-    · simp only [hx, Bool.false_eq_true, ↓reduceIte, Bool.false_or, ih]
-      split <;> rfl
-
-theorem uptoClose_of_no_close {a : List Out} (h : a.any Out.isClose = false) : uptoClose a = a := by
-  induction a with
-  | nil => rfl
-  | cons x xs ih =>
-    simp only [List.any_cons, Bool.or_eq_false_iff] at h
-    simp [uptoClose, h.1, ih h.2]
+-- a closed transport is not fed
 
 theorem feedAll_closed {c : Conn} (h : c.closed = true) (cs : List Bytes) :
     feedAll c cs = (c, []) := by
@@ -418,7 +541,9 @@ theorem drain_facts' (c : Conn) :
     (drain c).1.closed = (c.closed || (drain c).2.1.any Out.isClose) ∧
     ((drain c).2.2 = true → (drain c).1.closed = true) ∧
     ((drain c).2.2 = false → (drain c).1.quiet) ∧
-    (drain c).1.maxSize = c.maxSize :=
+    (drain c).1.maxSize = c.maxSize ∧
+    ((drain c).2.2 = false → (drain c).1.closed = c.closed ∧
+      (drain c).2.1.any Out.isClose = false) :=
   drain_facts (c.spool.length + 1) c (by omega)
 
 theorem drain_app' (c : Conn) (t : Bytes) :
@@ -436,39 +561,38 @@ theorem feed_append (c : Conn) (x t : Bytes) :
   simp only [feed_eq, ← Conn.app_app, drain_app' (c.app x) t]
   split <;> rfl
 
-/-- **Chunking independence, outputs.**  From a quiet open connection, the outputs up to and
-including the first close are the same for every way of cutting the stream. -/
-theorem chunking_uptoClose : ∀ (cs : List Bytes) (c : Conn), c.quiet → c.closed = false →
-    uptoClose (feedAll c cs).2 = uptoClose (feed c cs.flatten).2 := by
+/-- **Chunking independence, the whole session.**  From a quiet open connection, every way of
+cutting the stream gives exactly the same outputs as the uncut stream — all of them, not only
+those up to the first close — and the same connection, except that bytes which the uncut
+delivery spooled behind the frame that closed the transport are, with chunks, partly not
+delivered at all (`t`); while the transport is open nothing differs (`t = []`). -/
+theorem chunking_full : ∀ (cs : List Bytes) (c : Conn), c.quiet → c.closed = false →
+    (feedAll c cs).2 = (feed c cs.flatten).2 ∧
+    ∃ t, (feed c cs.flatten).1 = (feedAll c cs).1.app t ∧
+      ((feedAll c cs).1.closed = false → t = []) := by
   intro cs
   induction cs with
   | nil =>
     intro c hq _
-    simp [feedAll, feed_eq, Conn.app_nil, drain_of_quiet hq]
+    simp only [feedAll, List.flatten_nil, feed_eq, Conn.app_nil, drain_of_quiet hq]
+    exact ⟨trivial, [], (Conn.app_nil c).symm, fun _ => rfl⟩
   | cons x xs ih =>
     intro c hq hopen
-    obtain ⟨f1, f2, f3, _⟩ := drain_facts' (c.app x)
+    obtain ⟨f1, f2, f3, _, f5⟩ := drain_facts' (c.app x)
     simp only [feedAll, hopen, Bool.false_eq_true, ↓reduceIte, List.flatten_cons, feed_append]
     cases hstop : (drain (c.app x)).2.2 with
     | true =>
       have hcl : (feed c x).1.closed = true := f2 hstop
-      simp [feedAll_closed hcl]
+      simp only [↓reduceIte, feedAll_closed hcl, List.append_nil]
+      exact ⟨trivial, xs.flatten, rfl, fun h => by rw [hcl] at h; cases h⟩
     | false =>
       simp only [Bool.false_eq_true, ↓reduceIte]
-      cases hcl : (feed c x).1.closed with
-      | true =>
-        have hany : (feed c x).2.any Out.isClose = true := by
-          have := f1
-          simp only [Conn.app_closed, hopen, Bool.false_or] at this
-          exact this.symm.trans hcl
-        simp [feedAll_closed hcl, uptoClose_append, hany]
-      | false =>
-        have hany : (feed c x).2.any Out.isClose = false := by
-          have := f1
-          simp only [Conn.app_closed, hopen, Bool.false_or] at this
-          exact this.symm.trans hcl
-        have := ih (feed c x).1 (f3 hstop) hcl
-        simp [uptoClose_append, hany, this]
+      have hcl : (feed c x).1.closed = false := by
+        have := (f5 hstop).1
+        simp only [Conn.app_closed, hopen] at this
+        exact this
+      obtain ⟨i1, t, i2, i3⟩ := ih (feed c x).1 (f3 hstop) hcl
+      exact ⟨by rw [i1], t, i2, i3⟩
 
 /-- **Chunking independence, everything.**  If the stream fed in one piece leaves the connection
 open, every chunking gives exactly the same outputs and the same final state. -/
@@ -481,7 +605,7 @@ theorem chunking_open : ∀ (cs : List Bytes) (c : Conn), c.quiet →
     simp [feedAll, feed_eq, Conn.app_nil, drain_of_quiet hq]
   | cons x xs ih =>
     intro c hq hopen
-    obtain ⟨f1, f2, f3, _⟩ := drain_facts' (c.app x)
+    obtain ⟨f1, f2, f3, _, _⟩ := drain_facts' (c.app x)
     simp only [List.flatten_cons, feed_append] at hopen ⊢
     cases hstop : (drain (c.app x)).2.2 with
     | true =>
@@ -489,7 +613,7 @@ theorem chunking_open : ∀ (cs : List Bytes) (c : Conn), c.quiet →
       simp [hstop, hcl] at hopen
     | false =>
       simp only [hstop, Bool.false_eq_true, ↓reduceIte] at hopen ⊢
-      obtain ⟨g1, _, _, _⟩ := drain_facts' ((feed c x).1.app xs.flatten)
+      obtain ⟨g1, _, _, _, _⟩ := drain_facts' ((feed c x).1.app xs.flatten)
       have hcl : (feed c x).1.closed = false := by
         have : (feed (feed c x).1 xs.flatten).1.closed
             = ((feed c x).1.closed || (feed (feed c x).1 xs.flatten).2.any Out.isClose) := g1
